@@ -167,6 +167,7 @@ tagspec(struct scope *s)
 	struct attr a;
 	enum attrkind allowedattr;
 	struct structbuilder b;
+	struct token colon;
 	unsigned long long value, max, min;
 	bool sign;
 	int i;
@@ -189,10 +190,16 @@ tagspec(struct scope *s)
 		tag = tok.lit;
 		next();
 	}
-	if (kind == TYPEENUM && consume(TCOLON)) {
+	if (kind == TYPEENUM && tok.kind == TCOLON) {
+		colon = tok;
+		next();
 		et = declspecs(s, NULL, NULL, NULL).type;
-		if (!et)
-			error(&tok.loc, "no type in enum type specifier");
+		if (!et) {
+			if (!tag)
+				error(&tok.loc, "no type in enum type specifier");
+			/* the width of a bit-field or the expression of a generic association */
+			unget(&colon);
+		}
 	}
 	if (tag)
 		t = scopegettag(s, tag, tok.kind != TLBRACE && tok.kind != TSEMICOLON);
